@@ -13,6 +13,10 @@ package main
 //   c05.cells  (n tree)                               spec serialisation of a Patricia tree with a label
 //                                                     form per edge (independent encoder below)      -> cell | 'err
 //   c05.ops    (n signed cell (op...))                Unmarshal HashmapE, Get/Put, Items, re-Marshal
+//   c05.hist   (n signed hashmapE build ((key value)...) (step...))   a history on dictionary OBJECTS: build = 'put |
+//                                                     'new (NewHashmap(E) with the slices in that order) | 'new2 (two
+//                                                     objects from the SAME slices); steps ('marshal i) ('items i)
+//                                                     ('get i k) ('put i k v) -> (result ...)
 //   c05.addr   (((wc addr value)...))                 AddressWithWorkchain keys given as values: Put, Marshal,
 //                                                     Unmarshal -> (cell ((wc addr value)...)) | 'err
 // A cell tree is (b<bits> (child ...)).  Keys are printed as their bits,
@@ -46,6 +50,7 @@ type c05Impl struct {
 	signed bool
 	encode func(e bool, kvs []c05KV) (*boc.Cell, error)
 	raw    func(e bool, kvs []c05KV) (*boc.Cell, error)
+	hist   func(e bool, build string, kvs []c05KV, steps []sx.V) sx.V
 	decode func(e bool, c *boc.Cell) ([]c05KV, error)
 	ops    func(c *boc.Cell, ops []sx.V) sx.V
 }
@@ -156,6 +161,122 @@ func c05Reg[K c05Key](signed bool) {
 		}
 		return c, tlb.Marshal(c, tlb.NewHashmap(keys, values))
 	}
+	im.hist = func(e bool, build string, kvs []c05KV, steps []sx.V) sx.V {
+		// one dictionary object behind closures (Hashmap or HashmapE)
+		type obj struct {
+			put     func(k K, v tlb.Uint32)
+			get     func(k K) (tlb.Uint32, bool)
+			items   func() []tlb.HashmapItem[K, tlb.Uint32]
+			keys    func() []K
+			values  func() []tlb.Uint32
+			marshal func() (*boc.Cell, error)
+		}
+		mk := func(keys []K, values []tlb.Uint32) obj {
+			if e {
+				h := tlb.NewHashmapE(keys, values)
+				// closures, not method values: a method value of a value-receiver method
+				// would copy h when it is bound
+				return obj{
+					put:    func(k K, v tlb.Uint32) { h.Put(k, v) },
+					get:    func(k K) (tlb.Uint32, bool) { return h.Get(k) },
+					items:  func() []tlb.HashmapItem[K, tlb.Uint32] { return h.Items() },
+					keys:   func() []K { return h.Keys() },
+					values: func() []tlb.Uint32 { return h.Values() },
+					marshal: func() (*boc.Cell, error) {
+						c := boc.NewCell()
+						return c, tlb.Marshal(c, h) // by value, as a field of a struct would be
+					}}
+			}
+			h := tlb.NewHashmap(keys, values)
+			return obj{
+				put:    func(k K, v tlb.Uint32) { h.Put(k, v) },
+				get:    func(k K) (tlb.Uint32, bool) { return h.Get(k) },
+				items:  func() []tlb.HashmapItem[K, tlb.Uint32] { return h.Items() },
+				keys:   func() []K { return h.Keys() },
+				values: func() []tlb.Uint32 { return h.Values() },
+				marshal: func() (*boc.Cell, error) {
+					c := boc.NewCell()
+					return c, tlb.Marshal(c, h) // by value, as a field of a struct would be
+				}}
+		}
+		var objs []obj
+		switch build {
+		case "put":
+			o := mk(nil, nil)
+			for _, kv := range kvs {
+				k, err := c05KeyFromBits[K](kv.k)
+				if err != nil {
+					return sx.A("err")
+				}
+				o.put(k, tlb.Uint32(kv.v))
+			}
+			objs = []obj{o}
+		default:
+			keys := make([]K, 0, len(kvs))
+			values := make([]tlb.Uint32, 0, len(kvs))
+			for _, kv := range kvs {
+				k, err := c05KeyFromBits[K](kv.k)
+				if err != nil {
+					return sx.A("err")
+				}
+				keys = append(keys, k)
+				values = append(values, tlb.Uint32(kv.v))
+			}
+			objs = []obj{mk(keys, values)}
+			if build == "new2" {
+				objs = append(objs, mk(keys, values))
+			}
+		}
+		var out []sx.V
+		for _, st := range steps {
+			if len(st.List) < 2 || st.List[1].I() >= len(objs) {
+				out = append(out, sx.L(sx.A("harness-error"), sx.A("step")))
+				continue
+			}
+			o := objs[st.List[1].I()]
+			switch {
+			case st.Head() == "marshal" && len(st.List) == 2:
+				c, err := o.marshal()
+				if err != nil {
+					out = append(out, sx.A("err"))
+				} else {
+					out = append(out, c05CellSx(c))
+				}
+			case st.Head() == "items" && len(st.List) == 2:
+				its, ks, vs := o.items(), o.keys(), o.values()
+				ok := len(ks) == len(its) && len(vs) == len(its)
+				for i := 0; ok && i < len(its); i++ {
+					ok = its[i].Key.Equal(ks[i]) && its[i].Value == vs[i]
+				}
+				items, err := c05Items(its)
+				if err != nil || !ok {
+					out = append(out, sx.A("inconsistent"))
+				} else {
+					out = append(out, c05ItemsSx(items))
+				}
+			case st.Head() == "get" && len(st.List) == 3:
+				k, err := c05KeyFromBits[K](st.List[2].Bits)
+				if err != nil {
+					return sx.A("err")
+				}
+				if v, ok := o.get(k); ok {
+					out = append(out, sx.L(sx.N(uint64(v))))
+				} else {
+					out = append(out, sx.A("none"))
+				}
+			case st.Head() == "put" && len(st.List) == 4:
+				k, err := c05KeyFromBits[K](st.List[2].Bits)
+				if err != nil {
+					return sx.A("err")
+				}
+				o.put(k, tlb.Uint32(st.List[3].U64()))
+				out = append(out, sx.A("ok"))
+			default:
+				out = append(out, sx.L(sx.A("harness-error"), sx.A("step")))
+			}
+		}
+		return sx.L(out...)
+	}
 	im.decode = func(e bool, c *boc.Cell) ([]c05KV, error) {
 		if e {
 			var h tlb.HashmapE[K, tlb.Uint32]
@@ -251,6 +372,7 @@ func init() {
 	c05Reg[tlb.AddressWithWorkchain](false) // 288 bits: int32 workchain (sign-extended int8) + 32 bytes
 	execs["c05.encode"] = execC05Encode
 	execs["c05.raw"] = execC05Raw
+	execs["c05.hist"] = execC05Hist
 	execs["c05.decode"] = execC05Decode
 	execs["c05.cells"] = execC05Cells
 	execs["c05.ops"] = execC05Ops
@@ -356,6 +478,14 @@ func execC05Raw(in sx.V) sx.V {
 		return sx.A("err")
 	}
 	return c05CellSx(c)
+}
+
+func execC05Hist(in sx.V) sx.V {
+	im, ok := c05Impls[c05Name(in.List[0].I(), in.List[1].Bool)]
+	if !ok {
+		return sx.L(sx.A("harness-error"), sx.A("keytype"))
+	}
+	return im.hist(in.List[2].Bool, in.List[3].Atom, c05KVsOf(in.List[4]), in.List[5].List)
 }
 
 func execC05Decode(in sx.V) sx.V {
